@@ -94,7 +94,7 @@ PROPS = {
         "guards": ["accepted", "rejected-401", "near-window-boundary"],
         "parts": [{"engine": "front", "test": "TestProp_C17_Inbound", "quick": 2500, "thorough": 250000},
                   {"engine": "front", "test": "TestProp_C17_InboundConcurrent", "quick": 400, "thorough": 20000, "shards": {"quick": 4, "thorough": 8}, "shrinktime": "5s"},
-                  {"engine": "front", "test": "TestProp_C17_OutboundProcess", "quick": 64, "thorough": 2400, "shards": {"quick": 8, "thorough": 16}, "needs_bins": ["hookaido"]}],
+                  {"engine": "front", "test": "TestProp_C17_OutboundProcess", "quick": 96, "thorough": 2400, "shards": {"quick": 16, "thorough": 16}, "needs_bins": ["hookaido"]}],
     },
     "C09": {
         "rule": "histories on one HMAC route over one process lifetime: fresh valid sends (timestamps at -tol, -tol+1s, 0, tol-1s, tol), verbatim replays, "
